@@ -36,13 +36,21 @@ Fixpoint const_value_node (ft : string) (v : cvalue) (nested_list nested_object 
   | CStr s => PConst (PStr s)
   | CBool b => PConst (PBool b)
   | CNull => PConst PNone
-  | CEnum e => PName (ft ++ "." ++ member_name e)
+  | CEnum e =>
+      (* inside an object default field_type is the enclosing input type: the value is emitted as a plain
+         string and model_validate resolves the member (fix 9710ea3) *)
+      if nested_object then PConst (PStr e) else PName (ft ++ "." ++ member_name e)
   | CList l =>
       let list_ := PList (map (fun x => const_value_node ft x true nested_object) l) in
       if nested_list then list_ else default_factory list_
   | CObj kv =>
       let dict_ := PDict (map (fun p => (fst p, const_value_node ft (snd p) true true)) kv) in
-      if nested_object then dict_ else default_factory (PValidate ft dict_)
+      if nested_object then dict_
+      else
+        (* an object that is an item of a list default is the bare model_validate call: the enclosing list
+           already sits in a default_factory (fix bef1df4) *)
+        let model := PValidate ft dict_ in
+        if nested_list then model else default_factory model
   end.
 
 (* parse_input_field_default_value(node, annotation, field_type, field); the schema comes from SDL, so the
